@@ -127,16 +127,35 @@ func analyseKernel(ctx *Ctx, fn *ssa.Function, nverts int, interp string) (*kern
 	}
 	// 2. emitted vertex order: the Degenerate call sees the finished primitive
 	dg := eventsOf(ev, ".Degenerate")
-	if len(dg) == 0 {
-		return nil, fmt.Errorf("no Degenerate call seen in %s", fn.Name())
+	var prim *Agg
+	if len(dg) > 0 {
+		if recvSnap, _ := dg[0].Args[0].(*Tuple); recvSnap != nil && len(recvSnap.Elems) == 2 {
+			prim, _ = recvSnap.Elems[1].(*Agg) // pointer receiver: (pointer, pointee) snapshot
+		} else {
+			prim, _ = dg[0].Args[0].(*Agg) // value receiver
+		}
+	} else {
+		// no degenerate test (T6/U4 reports that): find the local primitive at the append
+		for _, e := range eventsOf(ev, "append") {
+			for _, v := range e.State.mem {
+				a, ok := v.(*Agg)
+				if !ok || len(a.Elems) != nverts {
+					continue
+				}
+				all := true
+				for _, el := range a.Elems {
+					if s, ok := el.(*Sym); !ok || s.Idx == nil || s.Idx.Op != "sel" {
+						all = false
+					}
+				}
+				if all {
+					prim = a
+				}
+			}
+		}
 	}
-	recvSnap, _ := dg[0].Args[0].(*Tuple)
-	if recvSnap == nil || len(recvSnap.Elems) != 2 {
-		return nil, fmt.Errorf("Degenerate receiver is not a local primitive")
-	}
-	prim, _ := recvSnap.Elems[1].(*Agg)
 	if prim == nil || len(prim.Elems) != nverts {
-		return nil, fmt.Errorf("primitive has unexpected shape %s", valKey(recvSnap.Elems[1]))
+		return nil, fmt.Errorf("cannot find the emitted %d-vertex primitive", nverts)
 	}
 	for k, e := range prim.Elems {
 		s, _ := e.(*Sym)
